@@ -266,9 +266,8 @@ func fnBitfield(ctx *cmdContext, args map[string]any) (output respValue, err err
 }
 
 func fnBitOp(ctx *cmdContext, args map[string]any) (output respValue, err error) {
-	keys := args["key"].([]any)
-	destKeyName := keys[0].(string)
-	srcKeys := keys[1:]
+	destKeyName := args["destkey"].(string)
+	srcKeys := args["key"].([]any)
 	_, op_not := args["operation.not"]
 	_, op_and := args["operation.and"]
 	_, op_or := args["operation.or"]
